@@ -18,7 +18,7 @@ RULE = ('KData objects loaded from harness-written ISMRMRD files (other 1..3 x k
         'consistent, source object unchanged; value-changing steps checked by their own oracle (FOV invariance, orthogonal projection on the '
         'dominant coil subspace, unit noise covariance). distinct = distinct (layout, op sequence)')
 ASSUMPTIONS = ['einops / torch indexing compute the index maps of the model (this is what the comparison checks)']
-FREE_LABELS = ['phase', 'contrast', 'set', 'average', 'user0']
+FREE_LABELS = ['phase', 'contrast', 'set', 'average', 'slice']  # the labels the API accepts (minus 'repetition', used for other)
 
 
 def generate(rng: random.Random, tier: str):
